@@ -71,6 +71,7 @@ static void ref_builtin(const char *name, const char *rawargs, sb_t *o, int dept
     else if (!strcasecmp(name, "random")) { n = words(a.b, w); if (n >= 1) { for (int i = 1; i < n; i++) if (strcmp(w[i], w[0])) dont_care = 1; sb_put(o, w[0], strlen(w[0])); } }
     else if (!strcasecmp(name, "exec")) {
         if (tmpdir_odd) dont_care = 1;           /* what a command yields when its temporary file cannot be created is not specified */
+        if (a.n > CONFIG_BUFF - 300) { dont_care = 1; len_unknown = 1; }      /* nor whether a command that (with its redirection) barely fits a line buffer is run at all */
         /* simulated command interpreter: "echo TEXT" prints TEXT; output is whitespace-condensed */
         const char *c = a.b;
         while (*c == ' ') c++;
@@ -335,7 +336,16 @@ static void gen_c10(plan_t *p, rng_t *r)
     for (int i = 0; i < nops; i++) {
         int pieces = rng_range(r, 1, 8);
         gvn = 0; gv[0] = 0;
-        if (bigdir && rng_chance(r, 1, 2)) {
+        if (rng_chance(r, 1, 25)) {
+            /* a command just as long as its buffer allows: "command >tempfile" of CONFIG_BUFF bytes, give or take a few */
+            long td = plan_get(p, "tmpdir", 0), outlen = (td >= 2 ? plan_get(p, "tmpdir.len", 240) : 4) + 1 + 17;       /* "<dir>/Eterm-exec-XXXXXX" */
+            long want = CONFIG_BUFF - 2 - outlen + rng_range(r, -4, 3);
+            if (want > 20 && want < CONFIG_BUFF - 10) {
+                ga("%%exec(echo ");
+                while ((long)gvn - 6 < want - 1) ga("p");
+                ga(")");
+            }
+        } else if (bigdir && rng_chance(r, 1, 2)) {
             if (rng_chance(r, 1, 3)) ga("%s", rng_chance(r, 1, 2) ? "x " : "$V1");
             ga("%%dirscan(/cfg/d)");
             if (rng_chance(r, 1, 3)) ga(" tail");
